@@ -222,8 +222,7 @@ def parseBlock (tok : String) : Option (Nat × List OMsg) :=
   | _ => none
 
 /-- does an observed ctx5 report handler `h`?  The publisher type name is demanded only when `h` has a publisher.
-    `stale`: router keys already on the incoming context – a field the handler leaves empty may then show through,
-    which the statement does not allow (the monitor still demands the handler's own, i.e. empty, value). -/
+    Whatever the incoming context carried: the handler's own values, an empty field as `-`. -/
 def ctxOk (h : HCfg) (c : List String) : Bool :=
   match c with
   | [hn, pn, sn, st, pt] =>
